@@ -12,7 +12,7 @@ use flsrc::uci::Flounder;
 use refchess::{Kind, Mv, Pos};
 use serde_json::{json, Value};
 
-pub const RULE: &str = "game histories with controlled multiplicities: from startpos or a generated valid FEN, a random prefix, then shuffle cycles (both sides move a man out and back, 0..3 full cycles, knight/king/rook/bishop/queen shuffles, with and without lost castling rights, vanished ep squares or an intervening irreversible move) and a partial cycle, so that the candidate successors of the final position P have 0, 1, 2 or >=3 earlier occurrences; 1..2 position commands on a fresh engine (only the last one's history may count; in a fifth of the cases the game is given first and then its final position again as a bare 'position fen …' / 'position startpos' without moves, whose history is that single position). Oracle (value level, through the real command path): 'position ...' then 'go depth 1'; the score of the completed depth-1 iteration must equal max over legal m of ( n(m) >= 2 ? 0 : -Q(P·m) ), Q = reference quiescence value, n(m) = occurrences of P·m in the most recent command's history. Successors whose count differs between the rule-book identity (ep only if capturable) and the exact-field identity are not judged. Non-trivial = the case discriminates (value with the draw rule != value without it, or a successor seen exactly once keeps its real non-zero value while deciding the maximum) ; distinct by command text. Part 'veteran': the same depth-1 oracle on an engine that keeps searching heavy middlegame positions in between (chunks of 1.4 M nodes ended by a node deadline; 9 chunks per engine quick, 40 thorough), one few-men case after every chunk — the tables hold hundreds of thousands of entries by then (maximum reported), nothing of which the case may use (a judged search that used a cached result is excluded). Part 'deep' (values two and three plies down): the same kind of game (mostly 3..6 men, often one or two plies off the shuffle cycle so that the twice-seen positions lie two or three plies below the root), then 'go depth 2|3' on a fresh engine; EVERY completed iteration i must report V_h(P,i) = plain minimax over the reference rules in which any position below the root that the judged history already shows twice is worth 0, leaves by the reference quiescence (with depth <= 3 no position can recur inside the line itself, and the deeper-entry-reuse counter must be 0). Cases whose value differs between the two identities of positions are not judged. Non-trivial there = the rule applied one ply below the root only would give another value (a draw two or three plies down decides), or an abandoned earlier game would; distinct by (command text, depth).";
+pub const RULE: &str = "game histories with controlled multiplicities: from startpos or a generated valid FEN, a random prefix, then shuffle cycles (both sides move a man out and back, 0..3 full cycles, knight/king/rook/bishop/queen shuffles, with and without lost castling rights, vanished ep squares or an intervening irreversible move) and a partial cycle, so that the candidate successors of the final position P have 0, 1, 2 or >=3 earlier occurrences; 1..2 position commands on a fresh engine (only the last one's history may count; in a fifth of the cases the game is given first and then its final position again as a bare 'position fen …' / 'position startpos' without moves, whose history is that single position). Oracle (value level, through the real command path): 'position ...' then 'go depth 1'; the score of the completed depth-1 iteration must equal max over legal m of ( n(m) >= 2 ? 0 : -Q(P·m) ), Q = reference quiescence value, n(m) = occurrences of P·m in the most recent command's history. Successors whose count differs between the rule-book identity (ep only if capturable) and the exact-field identity are not judged. Non-trivial = the case discriminates (value with the draw rule != value without it, or a successor seen exactly once keeps its real non-zero value while deciding the maximum) ; distinct by command text. Part 'two-components' (ENUMERATED, 256 histories): a double pawn push on every file, then rook/king shuffles of both sides after which the position comes back WITHOUT its en-passant square AND without a castling right (two components differ at once: a different position by any reading), stopped one move before that later position would occur the second time: its value must be the real one. Part 'veteran': the same depth-1 oracle on an engine that keeps searching heavy middlegame positions in between (chunks of 1.4 M nodes ended by a node deadline; 9 chunks per engine quick, 40 thorough), one few-men case after every chunk — the tables hold hundreds of thousands of entries by then (maximum reported), nothing of which the case may use (a judged search that used a cached result is excluded). Part 'deep' (values two and three plies down): the same kind of game (mostly 3..6 men, often one or two plies off the shuffle cycle so that the twice-seen positions lie two or three plies below the root), then 'go depth 2|3' on a fresh engine; EVERY completed iteration i must report V_h(P,i) = plain minimax over the reference rules in which any position below the root that the judged history already shows twice is worth 0, leaves by the reference quiescence (with depth <= 3 no position can recur inside the line itself, and the deeper-entry-reuse counter must be 0). Cases whose value differs between the two identities of positions are not judged. Non-trivial there = the rule applied one ply below the root only would give another value (a draw two or three plies down decides), or an abandoned earlier game would; distinct by (command text, depth).";
 
 pub fn reversible(p: &Pos, m: &Mv) -> bool {
     let i = p.info(*m);
@@ -711,6 +711,63 @@ thread_local! {
     static VETERAN_ROUNDS: std::cell::Cell<usize> = std::cell::Cell::new(9);
 }
 
+/// Enumerated part 'two-components': histories in which a position comes back differing from its
+/// first occurrence in TWO components of the position at once — the en-passant square has vanished
+/// AND a castling right has been lost in the same shuffle — so that the two are different positions
+/// by any reading of the rules, and the later one has occurred one time fewer than an identity that
+/// confuses the two would count.  Every file of the double push x every rook/king shuffle of the
+/// side that answers x every rook/king shuffle of the side that pushed, either colour pushing.
+/// The final position is one move before the second (not third) occurrence: its value must be the
+/// real one.
+fn two_component_cases() -> Vec<(String, Vec<Pos>)> {
+    // the side that answers the push has a bishop more: at the end the pusher is to move and stands
+    // worse, so a draw wrongly seen in the move that completes the shuffle would raise its value
+    let base = Pos::from_fen("r1b1k2r/pppppppp/8/8/8/8/PPPPPPPP/R3K2R w KQkq - 0 1").unwrap().0;
+    // shuffles of the side that answers the push (black in the unmirrored game) and of the pusher
+    let answer = [("h8g8", "g8h8"), ("a8b8", "b8a8"), ("e8d8", "d8e8"), ("e8f8", "f8e8")];
+    let pusher = [("h1g1", "g1h1"), ("a1b1", "b1a1"), ("e1d1", "d1e1"), ("e1f1", "f1e1")];
+    let flip = |m: &str| -> String {
+        let b = m.as_bytes();
+        let fr = |c: u8| (b'1' + (7 - (c - b'1'))) as char;
+        format!("{}{}{}{}", b[0] as char, fr(b[1]), b[2] as char, fr(b[3]))
+    };
+    let mut out = Vec::new();
+    for mirrored in [false, true] {
+        for file in 0..8u8 {
+            for (a, ar) in answer {
+                for (b, br) in pusher {
+                    let push = format!("{}2{}4", (b'a' + file) as char, (b'a' + file) as char);
+                    let mut moves: Vec<String> = vec![push];
+                    for _ in 0..1 {
+                        moves.extend([a, b, ar, br].iter().map(|x| x.to_string()));
+                    }
+                    moves.extend([a, b, ar].iter().map(|x| x.to_string()));
+                    let (start, moves) = if mirrored { (base.mirror(), moves.iter().map(|m| flip(m)).collect::<Vec<_>>()) } else { (base.clone(), moves) };
+                    let mut hist = vec![start.clone()];
+                    let mut p = start.clone();
+                    let mut ok = true;
+                    for m in &moves {
+                        match p.find_uci(m) {
+                            Some(mv) => {
+                                p = p.make(mv);
+                                hist.push(p.clone());
+                            }
+                            None => {
+                                ok = false;
+                                break;
+                            }
+                        }
+                    }
+                    if ok {
+                        out.push((format!("position fen {} moves {}", start.fen(0, 1), moves.join(" ")), hist));
+                    }
+                }
+            }
+        }
+    }
+    out
+}
+
 pub fn run(tier: Tier, seed: u64, known: &Known) -> PropRun {
     let mut run = PropRun::new("exploration", RULE);
     run.assumptions = vec![
@@ -721,6 +778,16 @@ pub fn run(tier: Tier, seed: u64, known: &Known) -> PropRun {
     let (st, fl) = run_part(&part, seed, known, check);
     run.stats.merge(st);
     run.failure = fl;
+    if run.failure.is_none() {
+        let cases = two_component_cases();
+        run.stats.class_n("two_component_histories_enumerated", cases.len() as u64);
+        let (st, fl) = crate::runner::run_enumerated("two-components", &cases, threads(), seed, known, |c, st| {
+            st.class("two_component_history_judged");
+            judge(&[c.0.clone()], &c.1, None, st)
+        });
+        run.stats.merge(st);
+        run.failure = fl;
+    }
     if run.failure.is_none() {
         let part = Part { name: "deep", cases: tier.pick(2_000, 60_000), min_len: 24, max_len: 600, max_shrink: 200, threads: threads() };
         let (st, fl) = run_part(&part, seed, known, check_deep);
